@@ -421,7 +421,13 @@ func (c *wsConnection) subscribe(start time.Time, msg *message) {
 	go func() {
 		ctx = withSubscriptionErrorContext(ctx)
 		defer func() {
-			if r := recover(); r != nil {
+			r := recover()
+			// unregister before any terminal frame is sent: a client may start the id
+			// again as soon as it has read it, and that registration must not be removed
+			c.mu.Lock()
+			delete(c.active, msg.id)
+			c.mu.Unlock()
+			if r != nil {
 				err := rc.Recover(ctx, r)
 				var gqlerr *gqlerror.Error
 				if !errors.As(err, &gqlerr) {
@@ -437,9 +443,6 @@ func (c *wsConnection) subscribe(start time.Time, msg *message) {
 			} else {
 				c.complete(msg.id)
 			}
-			c.mu.Lock()
-			delete(c.active, msg.id)
-			c.mu.Unlock()
 			cancel()
 		}()
 
